@@ -897,3 +897,62 @@ def run_solver_state(ctx, rep):
                 rep.violate(f"{solver_name}: the result of a solve depends on the solves performed before with the same solver "
                             "object", dict(sig, kind="solver-history-dependence"), case=desc,
                             impl_output=dict(after_history=w2.tolist(), fresh=wf.tolist()))
+
+
+# ------------------------------------------------------------------ C11: grp_converter vs the Lean model
+def run_grp_converter(ctx, rep):
+    """`skglm.utils.data.grp_converter(groups, n_features)` in its three accepted forms (int, list of sizes, list of
+    index lists — in any order) vs `grpConverter` (Model/Estimators2.lean); and the contract GroupLasso relies on: the
+    g-th slice of grp_indices is the g-th group as the user gave it"""
+    from skglm.utils.data import grp_converter
+    from .. import lean
+    rng = ctx.rng
+    lines, metas = [], []
+    for _ in range(ctx.n(60, 600)):
+        p = rng.randrange(1, 10)
+        form = rng.choice(["size", "sizes", "lists", "lists"])
+        if form == "size":
+            k = rng.choice([d for d in range(1, p + 1)] + [p + 1])
+            groups, toks = k, f"size {k}"
+            want = [list(range(i, i + k)) for i in range(0, p, k)] if p % k == 0 else None
+        elif form == "sizes":
+            sizes, left = [], p
+            while left:
+                t = min(left, rng.choice([1, 2, 3]))
+                sizes.append(t)
+                left -= t
+            groups, toks = sizes, "sizes " + " ".join([str(len(sizes))] + [str(t) for t in sizes])
+            want, i = [], 0
+            for t in sizes:
+                want.append(list(range(i, i + t)))
+                i += t
+        else:
+            idx = list(range(p))
+            rng.shuffle(idx)
+            want, i = [], 0
+            while i < p:
+                t = min(p - i, rng.choice([1, 2, 3]))
+                want.append(idx[i:i + t])
+                i += t
+            rng.shuffle(want)
+            groups = [list(g) for g in want]
+            toks = "lists " + " ".join([str(len(want))] + [" ".join([str(len(g))] + [str(j) for j in g]) for g in want])
+        try:
+            gi, gp = grp_converter(groups, p)
+            impl = ["ok", str(len(gi))] + [str(int(j)) for j in gi] + [str(len(gp))] + [str(int(j)) for j in gp]
+            got = [[int(j) for j in gi[gp[g]:gp[g + 1]]] for g in range(len(gp) - 1)]
+        except Exception as e:   # noqa: BLE001
+            impl, got = ["err:" + type(e).__name__], None
+        lines.append(f"grp_converter {p} {toks}")
+        metas.append((impl, got, want, dict(groups=groups, n_features=p)))
+    outs = lean.drive(lines)
+    for line, out, (impl, got, want, inp) in zip(lines, outs, metas):
+        rep.count("grp_converter:" + line.split()[2], False, ("grpconv", line))
+        if out.split() != impl:
+            rep.disagree("K:grp_converter", line, impl, out.split(), dict(site="grp_converter"), input=inp)
+        if want is not None and got != want:
+            rep.violate("grp_converter does not return the groups as given (g-th slice of grp_indices = g-th group)",
+                        dict(site="grp_converter", kind="layout"), input=inp, impl_output=got, oracle=dict(groups=want))
+        if want is None and got is not None:
+            rep.violate("grp_converter accepts a group size that does not divide the number of features",
+                        dict(site="grp_converter", kind="accepts-invalid"), input=inp, impl_output=got)
